@@ -438,9 +438,9 @@ func keScenario(r *rand.Rand, kind string, exec func(op string) string, st *keSt
 			exec(fmt.Sprintf("c-send %d %s %d", cid, hx.Hex(append([]byte{0xCD, byte(k), byte(cid)}, hx.Bytes(r, r.Intn(4))...)), now()))
 		case x < 15:
 			exec(fmt.Sprintf("c-rekey %d %d %d", cid, now(), 1000+n))
-			exec(fmt.Sprintf("c-hs %d", cid))
+			exec(fmt.Sprintf("c-hs %d %d", cid, now()))
 		case x < 18:
-			exec(fmt.Sprintf("c-hs %d", cid))
+			exec(fmt.Sprintf("c-hs %d %d", cid, now()))
 		default:
 			adv()
 		}
@@ -761,6 +761,14 @@ func keOracle(r *rand.Rand, n int, tier string, infile string) (cases int, fails
 			if rejectSide == 2 {
 				rej, other = B, A
 			}
+			// the refused peer keeps talking: whatever it sends must never surface
+			for k := 0; k < 3; k++ {
+				if trySend(other, []byte("from-refused-peer")) == nil {
+					pump(other, rej, 1)
+				}
+				other.c.VerifOnHandshake()
+				pump(other, rej, 1)
+			}
 			if s := rej.c.VerifSlots(); s[0].Present || s[1].Present {
 				bad("C05 a channel whose predicate rejects the peer key holds an established session (rejecting side %d, lossy=%v)", rejectSide, lossy)
 			}
@@ -773,7 +781,9 @@ func keOracle(r *rand.Rand, n int, tier string, infile string) (cases int, fails
 			if trySend(rej, []byte("secret")) == nil {
 				bad("C05 a channel whose predicate rejects the peer key encrypted application data to it")
 			}
-			_ = other
+			if s := rej.c.VerifSlots(); s[2].Present && s[2].Ready {
+				bad("C05 a session with a refused key stays ready in the prospective slot (rejecting side %d, lossy=%v)", rejectSide, lossy)
+			}
 		}
 	}
 	// restart while the first handshake is half open: B has only seen the first InitHello
@@ -796,6 +806,30 @@ func keOracle(r *rand.Rand, n int, tier string, infile string) (cases int, fails
 		establish(A2, B)
 		if trySend(A2, []byte("after-restart")) != nil {
 			bad("C07 peer restarted during a half-open handshake: three reliable round trips do not establish the channel: A' slots %+v B slots %+v", A2.c.VerifSlots(), B.c.VerifSlots())
+		}
+	}
+	// a timer callback that runs late: the rekey timer was armed by a waiting Send, the peer's InitHello is
+	// delivered before the callback runs. Afterwards something must still drive the prospective session.
+	lateRekeyCase := func() {
+		cases++
+		A := newChan(0, func(int) bool { return true })
+		B := newChan(1, func(int) bool { return true })
+		defer A.c.Close()
+		defer B.c.Close()
+		ctx, cf := context.WithCancel(context.Background())
+		defer cf()
+		go A.c.WaitReady(ctx) // arms the (detached) rekey timer and waits
+		trySend(B, []byte("x"))
+		B.c.VerifOnRekey()
+		B.c.VerifOnHandshake()
+		time.Sleep(2 * time.Millisecond)
+		for _, m := range B.sent {
+			A.c.Deliver(nil, m) // A becomes responder of B's handshake
+		}
+		A.c.VerifOnRekey() // A's own rekey callback runs only now
+		rk, hk := A.c.VerifTimersPending()
+		if s := A.c.VerifSlots(); s[2].Present && !s[1].Present && !rk && !hk {
+			bad("C07 a Send is waiting and a prospective session exists, but after a late rekey callback no timer is armed: nothing retransmits or gives up that session, the Send can wait forever (slots %+v)", s)
 		}
 	}
 	// (e) C07 keep-alive in real time: steady traffic must not trigger re-handshakes
@@ -855,6 +889,7 @@ func keOracle(r *rand.Rand, n int, tier string, infile string) (cases int, fails
 			spoofCase()
 			chanCase()
 			halfOpenCase()
+			lateRekeyCase()
 		}
 	}
 	nk := 1
